@@ -309,3 +309,20 @@ package oned
 //@   loop 1: invariant i > start ==> counterPosition == chg(row, start, i) && isWhite == !gozxing.bit(row, i - 1)
 //@   loop 1: invariant (forall k int :: 0 <= k && k < counterPosition ==> counters[k] >= 1) && (i > start ==> counters[counterPosition] >= 1) && (forall k int :: counterPosition < k && k < numCounters ==> counters[k] == 0) && (i == start ==> counters[0] == 0)
 //@   loop 1: decreases end - i
+
+// ---------------------------------------------------------------- Codabar reader (C06): a character is recognised only when all seven of its
+// elements and one more run after them have been recorded (DecodeRow reads counters[position+7] after a match), never out of range
+//@ func (this *codabarReader) toNarrowWidePattern(position int) (r int)
+//@   property C06
+//@   globals codabarReader_CHARACTER_ENCODINGS
+//@   requires 0 <= position && this.counterLength <= len(this.counters) && len(this.counters) <= 10000000
+//@   ensures r == -1 || (0 <= r && r < len(codabarReader_CHARACTER_ENCODINGS) && position + 7 < this.counterLength)
+//@   modifies nothing
+//@   loop 0: invariant position <= j && j <= end + 1 && end == position + 7 && end < this.counterLength && theCounters == this.counters
+//@   loop 0: decreases end + 1 - j
+//@   loop 1: invariant position + 1 <= j && j <= end + 1 && end == position + 7 && end < this.counterLength && theCounters == this.counters
+//@   loop 1: decreases end + 1 - j
+//@   loop 2: invariant 0 <= i && i <= 7 && end == position + 7 && end < this.counterLength && theCounters == this.counters
+//@   loop 2: decreases 7 - i
+//@   loop 3: invariant 0 <= i && i <= len(codabarReader_CHARACTER_ENCODINGS) && end == position + 7 && end < this.counterLength
+//@   loop 3: decreases len(codabarReader_CHARACTER_ENCODINGS) - i
